@@ -51,6 +51,8 @@ type encError struct{ msg string }
 func (e encError) Error() string { return e.msg }
 
 type Enc struct {
+	blockGuard map[string]int // top-frame block guard constant -> block index
+	ancestors  map[int]map[int]bool // block -> blocks that reach it along forward edges (incl. itself)
 	top *Frame
 	runLemma map[string]bool
 	tables map[string]*Term
@@ -651,6 +653,13 @@ func (f *Frame) encodeBody(entryGuard *Term, entryState *State) {
 				gs = append(gs, e.g)
 			}
 			g = f.E.name(Or(gs...), fmt.Sprintf("%sg_b%d", f.prefix, b.Index))
+			if f.prefix == "" && f.isTop && g.IsAtom() && g.Name != "" {
+				if f.E.blockGuard == nil {
+					f.E.blockGuard = map[string]int{}
+					f.E.ancestors = forwardAncestors(f.Fn)
+				}
+				f.E.blockGuard[g.Name] = b.Index
+			}
 			// merge states
 			st = NewState()
 			keys := map[string]*Sort{}
@@ -791,6 +800,12 @@ func (f *Frame) enterLoop(li *loopInfo, b *ssa.BasicBlock) {
 	for _, cl := range invs {
 		t := f.evalBool(cl.E, f.envFor(env2, f.st, cl))
 		f.assume(t, "loop invariant")
+	}
+	// lemma instances at the loop head (each lemma is an obligation of its own)
+	if f.C != nil {
+		for _, cl := range f.C.LoopApply[li.ordinal] {
+			f.assume(f.lemmaInstance(cl, f.envFor(env2, f.st, cl)), "lemma instance "+cl.Text)
+		}
 	}
 	// record decreases value at loop head
 	li.envAt = env2
@@ -978,4 +993,66 @@ func (f *Frame) loopEnvFor(li *loopInfo, over map[*ssa.Phi]*Val) *loopEnv {
 		}
 	}
 	return env
+}
+
+
+// lemmaInstance: name(args...) — the body of the named lemma with its quantified
+// variables bound to the arguments.
+func (f *Frame) lemmaInstance(cl *Clause, env *Env) *Term {
+	ex := cl.E
+	if ex.K != "call" || ex.A.K != "id" {
+		f.E.fail("%s: apply needs lemma(args)", cl.Where)
+	}
+	var lm *Lemma
+	for _, x := range f.E.P.Cs.Lemmas {
+		if x.Name == ex.A.Name {
+			lm = x
+		}
+	}
+	if lm == nil {
+		f.E.fail("%s: unknown lemma %s", cl.Where, ex.A.Name)
+	}
+	if lm.E.K != "quant" || lm.E.Op != "forall" || len(lm.E.Vars) != len(ex.Args) {
+		f.E.fail("%s: lemma %s takes %d arguments", cl.Where, lm.Name, len(lm.E.Vars))
+	}
+	for _, u := range lm.Uses {
+		f.E.Uses[u] = true
+	}
+	nenv := *env
+	nenv.Bound = map[string]*Val{}
+	for k, v := range env.Bound {
+		nenv.Bound[k] = v
+	}
+	for i, v := range lm.E.Vars {
+		nenv.Bound[v.Name] = f.evalC(ex.Args[i], env)
+	}
+	return f.evalBool(lm.E.A, &nenv)
+}
+
+
+// forwardAncestors: for every block, the blocks from which it can be reached without
+// taking a back edge (an edge whose target dominates its source).
+func forwardAncestors(fn *ssa.Function) map[int]map[int]bool {
+	anc := map[int]map[int]bool{}
+	var visit func(b *ssa.BasicBlock) map[int]bool
+	visit = func(b *ssa.BasicBlock) map[int]bool {
+		if m, ok := anc[b.Index]; ok {
+			return m
+		}
+		m := map[int]bool{b.Index: true}
+		anc[b.Index] = m
+		for _, p := range b.Preds {
+			if b.Dominates(p) {
+				continue // back edge
+			}
+			for k := range visit(p) {
+				m[k] = true
+			}
+		}
+		return m
+	}
+	for _, b := range fn.Blocks {
+		visit(b)
+	}
+	return anc
 }
